@@ -139,6 +139,7 @@ C19 == Fail(CacheSound, "C19.CacheSound")
        \cup Fail(NeverUnverified, "C19.NeverUnverified")
        \cup Fail(OfflineWhenCached, "C19.OfflineWhenCached")
        \cup Fail(ServedWhenCached, "C19.ServedWhenCached")
+       \cup Fail(NeverDownloadsWhenToldNotTo, "impl.download_if_missing_false")
        \cup Fail(RetryBound, "C19.RetryBound")
        \cup Fail(ErrorClassOK, "C19.RetryBound.error_class")
        \cup Fail(NoCrossTalk, "C19.NoCrossTalk")
